@@ -33,7 +33,7 @@ def peer_asdu(i, size=0):
 
 def gen_server(rng, n_ops, soak=False):
     k = rng.choice([1, 2, 3, 12, 12])
-    w = rng.choice([1, 2, 8])
+    w = rng.choice([1, 1, 2, 3, 8])
     vs0 = rng.choice([0, 1, 32760, 32765, 32766, 32767, rng.below(32768)])
     vr0 = rng.choice([0, 1, 32760, 32766, 32767, rng.below(32768)])
     lines = ["cfg k=%d w=%d t1=15 t2=10 t3=20 handlers=65 burst=%d bsize=%d raw=1 lowq=%d highq=30" % (k, w, rng.below(4), rng.choice([2, 10, 240]), rng.choice([2, 5, 50])),
@@ -81,9 +81,17 @@ def gen_server(rng, n_ops, soak=False):
             lines.append("tick")
             lines.append("rx c%d %s" % (ci, apci.STARTDT_ACT.hex()))
             lines.append("tick")
-        else:
+        elif r < 98:
             lines.append("rxi c%d %s %d" % (ci, peer_asdu(pid).hex(), rng.choice([1, -1, 5])))   # wrong N(S): closes
             lines.append("tick 2")
+        elif r < 99:
+            # an I-format APDU carrying an N(R) that acknowledges frames never sent: closes; N(R) sent must not count it
+            lines.append("rxi c%d %s 0 %d" % (ci, peer_asdu(pid).hex(), rng.choice([5, 100, -30000])))
+            lines.append("tick 2")
+        else:
+            # the socket takes nothing for exactly one event frame (write returns 0), then works again
+            lines += ["wmode c%d 2" % ci, "enq " + ev_asdu(evid).hex(), "tick", "wmode c%d 0" % ci, "enq " + ev_asdu(evid + 1).hex(), "tick 2"]
+            evid += 2
     lines.append("tick 3")
     return lines
 
@@ -156,22 +164,51 @@ def analyse(ck, role, sid, lines, out, mexe_scripts):
             pokes[c] = (int(kv["vs"]), int(kv["vr"]))
     ccur = 0
     per = {}
+    # The raw-message handler sees every APDU the station TRIES to write, in order with the callbacks; what reached the peer is
+    # in the `tx` lines, printed at the end of each command.  An APDU whose write failed (socket full / error) is not "written
+    # to the connection": per command block, raw-out frames are matched in order against the octets that were delivered.
+    blocks, curb = [], []
     for l in out:
-        t = l.split()
-        if not t:
-            continue
-        if role == "server":
-            if t[0] == "raw" and t[2] == "out":
-                per.setdefault(int(t[1][1:]), []).append(("tx", bytes.fromhex(t[3])))
-            elif t[0] == "cb":
-                per.setdefault(int(t[2][1:]), []).append(("acc", None))
-        else:
-            if t[0] == "ev" and t[1] in ("OPENED", "FAILED"):
-                ccur += 1
-            elif t[0] == "raw" and t[1] == "out":
-                per.setdefault(ccur, []).append(("tx", bytes.fromhex(t[2])))
-            elif t[0] == "cb":
-                per.setdefault(ccur, []).append(("acc", None))
+        curb.append(l)
+        if (role == "server" and l.startswith("open ")) or (role == "client" and l == "."):
+            blocks.append(curb)
+            curb = []
+    if curb:
+        blocks.append(curb)
+    for blk in blocks:
+        delivered = {}
+        for l in blk:
+            t = l.split()
+            if t and t[0] == "tx":
+                if role == "server":
+                    delivered.setdefault(int(t[1][1:]), bytearray()).extend(bytes.fromhex(t[2]))
+                else:
+                    delivered.setdefault("cli", bytearray()).extend(bytes.fromhex(t[1]))
+        dpos = {}
+        for l in blk:
+            t = l.split()
+            if not t:
+                continue
+            if role == "server":
+                if t[0] == "raw" and t[2] == "out":
+                    c, f = int(t[1][1:]), bytes.fromhex(t[3])
+                    d, p = delivered.get(c, b""), dpos.get(c, 0)
+                    if bytes(d[p:p + len(f)]) == f:
+                        dpos[c] = p + len(f)
+                        per.setdefault(c, []).append(("tx", f))
+                elif t[0] == "cb":
+                    per.setdefault(int(t[2][1:]), []).append(("acc", None))
+            else:
+                if t[0] == "ev" and t[1] in ("OPENED", "FAILED"):
+                    ccur += 1
+                elif t[0] == "raw" and t[1] == "out":
+                    f = bytes.fromhex(t[2])
+                    d, p = delivered.get("cli", b""), dpos.get("cli", 0)
+                    if bytes(d[p:p + len(f)]) == f:
+                        dpos["cli"] = p + len(f)
+                        per.setdefault(ccur, []).append(("tx", f))
+                elif t[0] == "cb":
+                    per.setdefault(ccur, []).append(("acc", None))
     for c, evs in per.items():
         vs, vr = pokes.get(c, (0, 0))
         # frames written before the poke (STARTDT con) are U-frames and do not depend on the counters
